@@ -39,6 +39,56 @@ theorem compose_span (ts : Ts) (D T : Time) (s1 e1 s2 e2 : Nat)
     unfold applyRaw; rw [hn]; rfl
   simp [applyRule, hraw, valCalOk, hc, bind, Except.bind, pure, Except.pure]
 
+/-- **the composed value as an instant**: for a calendar date `y-m-d` and a clock value `h[:mi]` in range, the
+`dt` accessor of '<day> <time>' is exactly that day at that hour and minute (minute 0 when none was written) -/
+theorem compose_dt (D T : Time) (y m d h : Int) (hy : D.year = some y) (hm : D.month = some m) (hd : D.day = some d) (hh : T.hour = some h)
+    (hv : (⟨y, m, d⟩ : Date).valid = true) (hr : (⟨y, m, d⟩ : Date).inRange = true) (h0 : 0 ≤ h) (h23 : h ≤ 23)
+    (hmi : ∀ mi, T.minute = some mi → 0 ≤ mi ∧ mi ≤ 59) :
+    ({ year := D.year, month := D.month, day := D.day, hour := T.hour, minute := T.minute } : Time).dt = .ok ⟨⟨y, m, d⟩, h, T.minute.getD 0⟩ := by
+  rcases hmin : T.minute with _ | mi
+  · simp [Time.dt, Time.start, hy, hm, hd, hh, hv, hr, h0, h23, bind, Except.bind, pure, Except.pure]
+  · have := hmi mi hmin
+    simp [Time.dt, Time.start, hy, hm, hd, hh, hv, hr, h0, h23, this.1, this.2, bind, Except.bind, pure, Except.pure]
+
+/-- what a successful `dt` says about the written date: all three fields present, the date exists and is in range -/
+theorem dt_date (D : Time) (tsD : Ts) (hD : D.dt = .ok tsD) :
+    ∃ y m d, D.year = some y ∧ D.month = some m ∧ D.day = some d ∧ tsD.date = ⟨y, m, d⟩ ∧ (⟨y, m, d⟩ : Date).valid = true ∧ (⟨y, m, d⟩ : Date).inRange = true := by
+  unfold Time.dt at hD
+  simp only [bind, Except.bind] at hD
+  split at hD
+  · cases hD
+  · rename_i s hs
+    have hsy : s.year = D.year ∧ s.month = D.month ∧ s.day = D.day := by
+      unfold Time.start at hs
+      simp only [bind, Except.bind] at hs
+      split at hs
+      · cases hs
+      · simp only [pure, Except.pure] at hs; cases hs; exact ⟨rfl, rfl, rfl⟩
+    split at hD
+    · rename_i y m d h1 h2 h3
+      split at hD
+      · rename_i hc
+        simp only [pure, Except.pure] at hD; cases hD
+        simp only [Bool.and_eq_true, decide_eq_true_eq] at hc
+        exact ⟨y, m, d, hsy.1 ▸ h1, hsy.2.1 ▸ h2, hsy.2.2 ▸ h3, rfl, hc.1.1.1.1.1, hc.1.1.1.1.2⟩
+      · cases hD
+    · cases hD
+
+/-- the day of the composed instant is the day of the date part's own instant: gluing a clock never moves the day -/
+theorem compose_keeps_day (D T : Time) (tsD : Ts) (h : Int) (hD : D.dt = .ok tsD) (hh : T.hour = some h) (h0 : 0 ≤ h) (h23 : h ≤ 23)
+    (hmi : ∀ mi, T.minute = some mi → 0 ≤ mi ∧ mi ≤ 59) :
+    ({ year := D.year, month := D.month, day := D.day, hour := T.hour, minute := T.minute } : Time).dt = .ok ⟨tsD.date, h, T.minute.getD 0⟩ := by
+  obtain ⟨y, m, d, hy, hm, hd, hdate, hv, hr⟩ := dt_date D tsD hD
+  rw [hdate]; exact compose_dt D T y m d h hy hm hd hh hv hr h0 h23 hmi
+
+/-- a date and a part of day compose the same way: the date fields of the day, the part of day kept, in either order -/
+theorem datePOD_sem (ts : Ts) (D P : Time) :
+    applyId .ruleDatePOD ts [.time D, .time P] = .ok (some (.time { year := D.year, month := D.month, day := D.day, pod := P.pod })) := rfl
+theorem podDate_sem (ts : Ts) (D P : Time) :
+    applyId .rulePODDate ts [.time P, .time D] = .ok (some (.time { year := D.year, month := D.month, day := D.day, pod := P.pod })) := rfl
+
+example : ({ year := some 2024, month := some 2, day := some 29, hour := some 17, minute := none } : Time).dt = .ok ⟨⟨2024, 2, 29⟩, 17, 0⟩ := by decide +kernel
+
 example : applyRule "ruleTODDate" ⟨⟨2018, 3, 7⟩, 12, 43⟩ [⟨.time { hour := some 17, minute := some 30 }, 0, 5⟩, ⟨.time { year := some 2018, month := some 3, day := some 8 }, 6, 14⟩] =
     .ok (some ⟨.time { year := some 2018, month := some 3, day := some 8, hour := some 17, minute := some 30 }, 0, 14⟩) := by decide +kernel
 
